@@ -397,3 +397,40 @@ func signedZeroCases() []*ProgCase {
 	}
 	return out
 }
+
+// nearLiteralCases: two numeric literals of one program that the comparison
+// tolerance cannot tell apart (or that differ only in sign of zero, or only
+// in spelling), each observed through operations that are exact.
+func nearLiteralCases() []*ProgCase {
+	var out []*ProgCase
+	env := bridge.NewEnv()
+	env.Put("b", ref.VBool(true))
+	pairs := [][2]string{
+		{"1", "1.0000000005"}, {"1.0000000005", "1"}, {"1", "0.9999999995"}, {"2", "2.0000000001"}, {"1e9", "1000000000.0000001"},
+		{"0.1", "0.10000000001"}, {"1e-10", "2e-10"}, {"0", "1e-12"}, {"1e-12", "0"}, {"100", "100.00000000001"}, {"3", "3.0000000009"},
+		{"9007199254740992", "9007199254740993"}, {"1", "1.0"}, {"1e3", "1000"}, {"0x10", "16"}, {"0.5", "0.50000000004"},
+	}
+	num := func(s string) *ref.E { return ref.Num(s, ref.LitValue(s)) }
+	k := 0
+	add := func(e *ref.E) {
+		k++
+		out = append(out, &ProgCase{ID: fmt.Sprintf("near-literal/%d", k), Src: ref.Render(e), E: e, Env: env})
+	}
+	for _, p := range pairs {
+		a, b := func() *ref.E { return num(p[0]) }, func() *ref.E { return num(p[1]) }
+		add(ref.List(ref.Call("string", a()), ref.Call("string", b())))
+		add(ref.CallF(ref.FInfix, "+", ref.Call("ceil", a()), ref.Call("ceil", b())))
+		add(ref.CallF(ref.FInfix, "-", ref.Call("floor", b()), ref.Call("floor", a())))
+		add(ref.CallF(ref.FInfix, "*", ref.Group(ref.CallF(ref.FInfix, "-", b(), a())), num("1e12")))
+		add(ref.Obj([]string{"x", "y", "z"}, []*ref.E{a(), b(), a()}))
+		add(ref.List(a(), b(), b(), a()))
+		add(ref.Call("if", ref.Ident("b"), b(), a()))
+		add(ref.Call("lzIf", ref.Ident("b"), ref.CallF(ref.FInfix, "*", b(), num("1e12")), ref.CallF(ref.FInfix, "*", a(), num("1e12"))))
+		add(ref.CallF(ref.FInfix, "+", ref.Call("string", ref.Call("fst", a(), b())), ref.Call("string", ref.Call("fst", b(), a()))))
+		add(ref.CallF(ref.FInfix, "/", num("1"), ref.Group(ref.CallF(ref.FInfix, "-", a(), b()))))
+	}
+	for i := range out {
+		out[i].User = ref.UserFuns()
+	}
+	return out
+}
